@@ -102,3 +102,30 @@ K('C12.d', property='C12', engine='symex', harness='C12/geom.cpp', entries=['k_g
   stubs=['ASpaceObject(const ASpace*) -> keeps the pointer instead of cloning the space; ~ASpaceObject -> does not delete it',
          '__dynamic_cast (solver build only) -> identity: the single checker is a BiTargetCheckGeometry (single inheritance, offset 0)',
          'Vario object is raw storage: _biPtsPerDirection = 1, _bipts = {the really constructed BiTargetCheckGeometry}; its _psmin is then set to the symbolic value'])
+
+
+# ---------------------------------------------------------------- C12.e (builder2: pair enumeration of the grid algorithm)
+_GRIDPAIR_TUS = ['src/Variogram/Vario.cpp', 'src/Db/Db.cpp', 'src/Db/DbGrid.cpp', 'src/Basic/Grid.cpp', 'src/Variogram/DirParam.cpp',
+                 'src/Space/SpaceRN.cpp', 'src/Space/ASpace.cpp', 'src/Basic/VectorHelper.cpp', 'src/Space/ASpaceObject.cpp', 'src/Space/SpacePoint.cpp', 'src/Space/SpaceTarget.cpp', 'src/Basic/AStringable.cpp',
+                 'src/Basic/Utilities.cpp']
+for _nx, _ny, _np, _inc, _tiers in ((2, 2, 2, 1, ('quick',)), (3, 3, 3, 1, ('quick', 'thorough')), (3, 3, 3, 2, ('thorough',)), (4, 3, 4, 2, ('thorough',))):
+    K('C12.e.%d%d.%d.i%d' % (_nx, _ny, _np, _inc), property='C12', engine='symex', harness='C12/gridpairs.cpp', entry='k_gridpairs', tus=_GRIDPAIR_TUS,
+      defines={'all': {'VF_NX': _nx, 'VF_NY': _ny, 'VF_NPAS': _np, 'VF_INC': _inc}}, tiers=_tiers,
+      bounds={'quick': 'concrete %dx%d grid (2-D), npas = %d lags; grid increment of the direction: every non-null integer vector of [-%d,%d]^2; selection present or not with any mask; '
+                       'weights present or not with any undefined pattern; any keepPair answer per ordered pair; any lag size dpas >= 1' % (_nx, _ny, _np, _inc, _inc)},
+      timeout_ms={'quick': 120000, 'thorough': 600000}, validate={'quick': 30, 'thorough': 60}, validate_doubles='int',
+      what='Vario::_calculateOnGridSolution loop logic with the real DbGrid::rankToIndice / indiceToRank / getNDim (Grid.cpp), DirParam::getGrincr / getLagNumber / getDPas, FFFF: '
+           'the ordered node pair (i, j) reaches the estimator exactly once, with lag k and distance k*dpas, iff both nodes are usable, keepPair accepts the pair and '
+           'ind(j) - ind(i) == k*grincr for a k in [1, npas) (lag ranks are 0..npas-1 as in DirParam::getLagRank, lag 0 being the zero distance); no other pair is evaluated',
+      out='the accumulated values; _calculateGenOnGridSolution (generalised variogram); 3-D grids; agreement of the results with the general algorithm beyond the set of pairs and their lags',
+      assumptions=['DbGrid object is raw storage + the real DbGrid vtable, _grid._nDim and _grid._nx initialised (nothing else is read)',
+                   'Vario object is raw storage: _nVar = 1, _evaluate, _varioparam._dirparams = one raw DirParam with _space = a really constructed SpaceRN(2), _nPas, _dPas, _grincr',
+                   'undefined weight is TEST = 1.234e30 (FFFF(x) is x > 1e30 in the NaN-free reading)'],
+      stubs=['Db::getSampleNumber -> nx*ny',
+             'Db::hasLocVariable -> symbolic flag for ELoc::SEL and ELoc::W (recognised by address), false otherwise',
+             'Db::isActive -> symbolic sel[iech]; Db::getWeight -> symbolic w[iech] (TEST or a grid value)',
+             'Db::getSampleAsSTInPlace -> loads nothing, remembers which node sits in which SpaceTarget',
+             'ASpaceObject(const ASpace*) -> keeps the pointer instead of cloning the space; ~ASpaceObject -> does not delete it',
+             'Vario::keepPair -> symbolic per-ordered-pair boolean, *dist = an arbitrary value (the estimator must receive k*dpas instead)',
+             'Vario::_rescale, _centerCovariance, _patchC00 -> no-ops',
+             'AVario::_evaluateVariogram (target of the member-function pointer _evaluate) -> records (iech1, iech2, lag, dist)'])
